@@ -32,7 +32,7 @@ Definition adv_excl_lower (gs : list group) : Q :=
   qsum (map (fun g => qmin (a_el (aggregate (g_bats g))) (qsum (map i_el (g_invs g)))) gs).
 (* non-zero (beyond the code's own 1e-9 W zero test) and not inside the advertised exclusion zone *)
 Definition admitted (gs : list group) (p : Q) : Prop :=
-  czero p = false /\ (adv_excl_upper gs <= p \/ p <= adv_excl_lower gs).
+  czero p = false /\ ((0 < p /\ adv_excl_upper gs <= p) \/ (p < 0 /\ p <= adv_excl_lower gs)).
 
 (* ------------------------------------------------------------------ aggregates of well-formed batteries *)
 Lemma qsum_nonpos l : (forall x, In x l -> x <= 0) -> qsum l <= 0.
@@ -107,9 +107,6 @@ Definition supply_of (p : Q) : bool := negb (Qlt_bool 0 p).
 Definition mag (p : Q) : Q := if supply_of p then - p else p.
 Definition pgs_of (powf : Q -> Q) (gs : list group) (p : Q) : list pgroup := map (prepare (supply_of p) powf) gs.
 
-(* the two run-time side conditions of the lower-bound theorems (see DistBounds.lower_ok) *)
-Definition side_ok (powf : Q -> Q) (gs : list group) (p : Q) : Prop := lower_ok (pgs_of powf gs p) (mag p).
-
 Definition core_result (powf : Q -> Q) (gs : list group) (p : Q) : option result := core (pgs_of powf gs p) (mag p).
 
 Lemma distribute_cases powf gs p r :
@@ -137,6 +134,24 @@ Qed.
 Definition inverter_ok (i : inverter) (v : Q) : Prop :=
   i_il i <= v <= i_iu i /\ ~ (i_el i < v /\ v < i_eu i).
 
+(* the same with the relative tolerance of math.isclose on the edge of the exclusion zone *)
+Definition inverter_okx (i : inverter) (v : Q) : Prop :=
+  i_il i <= v <= i_iu i /\ ~ ((1 - rel_tol) * i_el i < v /\ v < (1 - rel_tol) * i_eu i).
+
+Lemma prep_inv_consume_x a i v :
+  wf_inverter i -> (1 - rel_tol) * pi_excl (prep_inv false a i) <= v <= pi_incl (prep_inv false a i) -> inverter_okx i v.
+Proof.
+  intros (I1 & I2 & I3 & I4). unfold prep_inv; cbn. intros [H1 H2].
+  pose proof (qmin_le_l (i_iu i) (a_iu a)). unfold inverter_okx, rel_tol in *. split; [split; [nra|lra]|]. intros [? ?]. lra.
+Qed.
+
+Lemma prep_inv_supply_x a i v :
+  wf_inverter i -> (1 - rel_tol) * pi_excl (prep_inv true a i) <= v <= pi_incl (prep_inv true a i) -> inverter_okx i (- v).
+Proof.
+  intros (I1 & I2 & I3 & I4). unfold prep_inv; cbn. intros [H1 H2].
+  pose proof (qmax_ge_l (i_il i) (a_il a)). unfold inverter_okx, rel_tol in *. split; [split; [lra|nra]|]. intros [? ?]. lra.
+Qed.
+
 Lemma prep_inv_consume a i v :
   wf_inverter i -> pi_excl (prep_inv false a i) <= v <= pi_incl (prep_inv false a i) -> inverter_ok i v.
 Proof.
@@ -154,6 +169,9 @@ Qed.
 (* a set-point is zero or inside its inverter's inclusion bounds and outside its exclusion zone *)
 Definition setpoint_ok (gs : list group) (a : Z * Q) : Prop :=
   snd a == 0 \/ exists g i, In g gs /\ In i (g_invs g) /\ i_id i = fst a /\ inverter_ok i (snd a).
+
+Definition setpoint_okx (gs : list group) (a : Z * Q) : Prop :=
+  snd a == 0 \/ exists g i, In g gs /\ In i (g_invs g) /\ i_id i = fst a /\ inverter_okx i (snd a).
 
 Lemma src_is_prepared supply powf gs pg :
   In pg (map (prepare supply powf) gs) -> exists g, In g gs /\ pg = prepare supply powf g.
@@ -177,94 +195,118 @@ Proof.
   split; [exact Hg|]. split; [exact Hi|]. split; [exact Hid|]. eapply prep_inv_supply; eauto.
 Qed.
 
+Lemma sp_okx_consume powf gs g a :
+  wf_groups gs -> In g gs -> sp_okx (pg_invs (prepare false powf g)) a -> setpoint_okx gs a.
+Proof.
+  intros Hwf Hg [E|(pi & Hpi & Hid & Hb)]; [left; auto|right].
+  cbn in Hpi. apply in_map_iff in Hpi. destruct Hpi as (i & <- & Hi).
+  exists g, i. destruct (Hwf g Hg) as (_ & _ & HI & _).
+  split; [exact Hg|]. split; [exact Hi|]. split; [exact Hid|]. eapply prep_inv_consume_x; eauto.
+Qed.
+
+Lemma sp_okx_supply powf gs g a :
+  wf_groups gs -> In g gs -> sp_okx (pg_invs (prepare true powf g)) a -> setpoint_okx gs (fst a, - snd a).
+Proof.
+  intros Hwf Hg [E|(pi & Hpi & Hid & Hb)]; [left; cbn; lra|right].
+  cbn in Hpi. apply in_map_iff in Hpi. destruct Hpi as (i & <- & Hi).
+  exists g, i. destruct (Hwf g Hg) as (_ & _ & HI & _). cbn [snd fst].
+  split; [exact Hg|]. split; [exact Hi|]. split; [exact Hid|]. eapply prep_inv_supply_x; eauto.
+Qed.
+
 (* ------------------------------------------------------------------ C02_inverter *)
 Lemma distribute_inverter powf gs p r gr :
   wf_groups gs -> czero p = false -> distribute powf gs p = Some r -> In gr (res_groups r) ->
-  (length (pg_invs (gr_src gr)) = 1%nat -> side_ok powf gs p) ->
+  forall a, In a (gr_sp gr) -> setpoint_okx gs a.
+Proof.
+  intros Hwf Hz H Hg a Ha.
+  destruct (distribute_cases _ _ _ _ Hz H) as [(Hp & Hs & C)|(Hp & Hs & r0 & C & ->)];
+    unfold core_result, pgs_of in *; rewrite Hs in *.
+  - pose proof (core_src _ _ _ _ C Hg) as Hsrc. apply src_is_prepared in Hsrc. destruct Hsrc as (g & Hgin & Eg).
+    pose proof (core_inverter _ _ _ gr (prepare_wfs false powf gs Hwf) C Hg a Ha) as S.
+    rewrite Eg in S. eapply sp_okx_consume; eauto.
+  - apply neg_groups_in in Hg. destruct Hg as (gr0 & Hg0 & ->). cbn [gr_sp gr_src] in *.
+    apply in_map_iff in Ha. destruct Ha as (a0 & <- & Ha0).
+    pose proof (core_src _ _ _ _ C Hg0) as Hsrc. apply src_is_prepared in Hsrc. destruct Hsrc as (g & Hgin & Eg).
+    pose proof (core_inverter _ _ _ gr0 (prepare_wfs true powf gs Hwf) C Hg0 a0 Ha0) as S.
+    rewrite Eg in S. eapply sp_okx_supply; eauto.
+Qed.
+
+(* sets with two or more inverters: exact *)
+Lemma distribute_inverter_multi powf gs p r gr :
+  wf_groups gs -> czero p = false -> distribute powf gs p = Some r -> In gr (res_groups r) ->
+  length (pg_invs (gr_src gr)) <> 1%nat ->
   forall a, In a (gr_sp gr) -> setpoint_ok gs a.
 Proof.
-  intros Hwf Hz H Hg Hside a Ha.
+  intros Hwf Hz H Hg L a Ha.
   destruct (distribute_cases _ _ _ _ Hz H) as [(Hp & Hs & C)|(Hp & Hs & r0 & C & ->)];
-    unfold core_result, side_ok, pgs_of in *; rewrite Hs in *.
+    unfold core_result, pgs_of in *; rewrite Hs in *.
   - pose proof (core_src _ _ _ _ C Hg) as Hsrc. apply src_is_prepared in Hsrc. destruct Hsrc as (g & Hgin & Eg).
-    pose proof (core_inverter _ _ _ gr (prepare_wfs false powf gs Hwf) C Hg Hside a Ha) as S.
+    pose proof (core_inverter_multi _ _ _ gr (prepare_wfs false powf gs Hwf) C Hg L a Ha) as S.
     rewrite Eg in S. eapply sp_ok_consume; eauto.
   - apply neg_groups_in in Hg. destruct Hg as (gr0 & Hg0 & ->). cbn [gr_sp gr_src] in *.
     apply in_map_iff in Ha. destruct Ha as (a0 & <- & Ha0).
     pose proof (core_src _ _ _ _ C Hg0) as Hsrc. apply src_is_prepared in Hsrc. destruct Hsrc as (g & Hgin & Eg).
-    pose proof (core_inverter _ _ _ gr0 (prepare_wfs true powf gs Hwf) C Hg0 Hside a0 Ha0) as S.
+    pose proof (core_inverter_multi _ _ _ gr0 (prepare_wfs true powf gs Hwf) C Hg0 L a0 Ha0) as S.
     rewrite Eg in S. eapply sp_ok_supply; eauto.
 Qed.
 
-(* ------------------------------------------------------------------ C01_sign, C01_remainder *)
+(* ------------------------------------------------------------------ C01_sign, upper half of C01_remainder *)
 Lemma distribute_sign powf gs p r :
-  wf_groups gs -> czero p = false -> side_ok powf gs p -> distribute powf gs p = Some r ->
+  wf_groups gs -> czero p = false -> distribute powf gs p = Some r ->
   forall a, In a (res_dist r) -> (0 < p -> 0 <= snd a) /\ (p < 0 -> snd a <= 0).
 Proof.
-  intros Hwf Hz Hside H a Ha.
+  intros Hwf Hz H a Ha.
   destruct (distribute_cases _ _ _ _ Hz H) as [(Hp & Hs & C)|(Hp & Hs & r0 & C & ->)];
-    unfold core_result, side_ok, pgs_of in *; rewrite Hs in *.
-  - pose proof (core_sign _ _ _ (prepare_wfs false powf gs Hwf) Hside C a Ha). split; intros; lra.
+    unfold core_result, pgs_of in *; rewrite Hs in *.
+  - pose proof (core_sign _ _ _ (prepare_wfs false powf gs Hwf) C a Ha). split; intros; lra.
   - unfold res_dist in Ha. apply in_flat_map in Ha. destruct Ha as (gr & Hg & Ha).
     apply neg_groups_in in Hg. destruct Hg as (gr0 & Hg0 & ->). cbn [gr_sp] in Ha.
     apply in_map_iff in Ha. destruct Ha as (a0 & <- & Ha0).
     assert (In a0 (res_dist r0)) by (unfold res_dist; apply in_flat_map; eauto).
-    pose proof (core_sign _ _ _ (prepare_wfs true powf gs Hwf) Hside C a0 H0). cbn [snd]. split; intros; lra.
+    pose proof (core_sign _ _ _ (prepare_wfs true powf gs Hwf) C a0 H0). cbn [snd]. split; intros; lra.
 Qed.
 
-Lemma distribute_remainder powf gs p r :
-  wf_groups gs -> czero p = false -> side_ok powf gs p -> distribute powf gs p = Some r ->
-  (0 < p -> 0 <= res_rem r <= p) /\ (p < 0 -> p <= res_rem r <= 0).
+Lemma distribute_remainder_upper powf gs p r :
+  wf_groups gs -> czero p = false -> distribute powf gs p = Some r ->
+  (0 < p -> res_rem r <= p) /\ (p < 0 -> p <= res_rem r).
 Proof.
-  intros Hwf Hz Hside H.
+  intros Hwf Hz H.
   destruct (distribute_cases _ _ _ _ Hz H) as [(Hp & Hs & C)|(Hp & Hs & r0 & C & ->)];
-    unfold core_result, side_ok, pgs_of, mag in *; rewrite Hs in *.
-  - assert (0 <= p) by lra.
-    pose proof (core_remainder _ _ _ (prepare_wfs false powf gs Hwf) Hside H0 C). split; intros; lra.
-  - assert (0 <= - p) by lra.
-    pose proof (core_remainder _ _ _ (prepare_wfs true powf gs Hwf) Hside H0 C). cbn [neg_result res_rem].
+    unfold core_result, pgs_of, mag in *; rewrite Hs in *.
+  - pose proof (core_remainder_upper _ _ _ (prepare_wfs false powf gs Hwf) C). split; intros; lra.
+  - pose proof (core_remainder_upper _ _ _ (prepare_wfs true powf gs Hwf) C). cbn [neg_result res_rem].
     split; intros; lra.
 Qed.
 
 (* ------------------------------------------------------------------ C02_group *)
-(* the total of a battery group is inside the aggregated battery inclusion bounds and, when the split over
-   the group's inverters left nothing over, zero or outside the aggregated battery exclusion zone *)
-Definition group_ok (g : group) (gr : gres) : Prop :=
-  let a := aggregate (g_bats g) in
-  let tot := sumsp (gr_sp gr) in
-  a_il a <= tot <= a_iu a /\ (gr_left gr == 0 -> tot == 0 \/ ~ (a_el a < tot /\ tot < a_eu a)).
-
-(* the property's clause at full strength (no condition on the split's leftover) *)
+(* the total of a battery group's inverters is inside the aggregated battery inclusion bounds and is zero or outside
+   the aggregated battery exclusion zone (edge of the zone up to the relative tolerance of math.isclose) *)
 Definition group_full (g : group) (gr : gres) : Prop :=
   let a := aggregate (g_bats g) in
   let tot := sumsp (gr_sp gr) in
-  a_il a <= tot <= a_iu a /\ (tot == 0 \/ ~ (a_el a < tot /\ tot < a_eu a)).
-
-Lemma group_ok_full g gr : group_ok g gr -> gr_left gr == 0 -> group_full g gr.
-Proof. unfold group_ok, group_full. intros [H1 H2] Z. split; auto. Qed.
+  a_il a <= tot <= a_iu a /\ (tot == 0 \/ ~ ((1 - rel_tol) * a_el a < tot /\ tot < (1 - rel_tol) * a_eu a)).
 
 Lemma distribute_group powf gs p r gr :
-  wf_groups gs -> czero p = false -> side_ok powf gs p -> distribute powf gs p = Some r -> In gr (res_groups r) ->
-  exists g, In g gs /\ gr_src gr = prepare (supply_of p) powf g /\ group_ok g gr.
+  wf_groups gs -> czero p = false -> distribute powf gs p = Some r -> In gr (res_groups r) ->
+  exists g, In g gs /\ gr_src gr = prepare (supply_of p) powf g /\ group_full g gr.
 Proof.
-  intros Hwf Hz Hside H Hg.
+  intros Hwf Hz H Hg.
   destruct (distribute_cases _ _ _ _ Hz H) as [(Hp & Hs & C)|(Hp & Hs & r0 & C & ->)];
-    unfold core_result, side_ok, pgs_of in *; rewrite Hs in *.
+    unfold core_result, pgs_of in *; rewrite Hs in *.
   - pose proof (core_src _ _ _ _ C Hg) as Hsrc. apply src_is_prepared in Hsrc. destruct Hsrc as (g & Hgin & Eg).
     exists g. split; auto. split; auto.
-    destruct (core_group _ _ _ gr (prepare_wfs false powf gs Hwf) Hside C Hg) as (T1 & T2 & T3).
+    destruct (core_group _ _ _ gr (prepare_wfs false powf gs Hwf) C Hg) as (T1 & T3).
     rewrite Eg in *. cbn [prepare pg_bincl pg_bexcl] in *.
     destruct (Hwf g Hgin) as (Hne & Hb & _). destruct (agg_wf _ Hne Hb) as (A1 & A2 & A3 & A4).
-    unfold group_ok. split; [lra|]. intro Z. destruct (T3 Z) as [E|E]; [left; auto|right]. intros [? ?]. lra.
+    unfold group_full. split; [lra|]. destruct T3 as [E|E]; [left; auto|right]. intros [? ?]. lra.
   - apply neg_groups_in in Hg. destruct Hg as (gr0 & Hg0 & ->). cbn [gr_sp gr_src gr_left].
     pose proof (core_src _ _ _ _ C Hg0) as Hsrc. apply src_is_prepared in Hsrc. destruct Hsrc as (g & Hgin & Eg).
     exists g. split; auto. split; auto.
-    destruct (core_group _ _ _ gr0 (prepare_wfs true powf gs Hwf) Hside C Hg0) as (T1 & T2 & T3).
+    destruct (core_group _ _ _ gr0 (prepare_wfs true powf gs Hwf) C Hg0) as (T1 & T3).
     rewrite Eg in *. cbn [prepare pg_bincl pg_bexcl] in *.
     destruct (Hwf g Hgin) as (Hne & Hb & _). destruct (agg_wf _ Hne Hb) as (A1 & A2 & A3 & A4).
     pose proof (sumsp_neg (gr_sp gr0)) as N.
-    unfold group_ok. cbn [gr_sp gr_left]. split; [lra|]. intro Z.
-    assert (Z0 : gr_left gr0 == 0) by lra. destruct (T3 Z0) as [E|E]; [left; lra|right]. intros [? ?]. lra.
+    unfold group_full. cbn [gr_sp]. split; [lra|]. destruct T3 as [E|E]; [left; lra|right]. intros [? ?]. lra.
 Qed.
 
 (* ------------------------------------------------------------------ C02_no_headroom *)
@@ -290,35 +332,6 @@ Proof.
   - apply neg_groups_in in Hg. destruct Hg as (gr0 & Hg0 & ->). cbn [gr_sp gr_src] in *.
     apply in_map_iff in Ha. destruct Ha as (a0 & <- & Ha0). cbn [snd].
     pose proof (core_no_headroom _ _ _ gr0 (prepare_wfs true powf gs Hwf) C Hg0 F a0 Ha0). lra.
-Qed.
-
-(* ------------------------------------------------------------------ corollaries in the shape of props/C01.v, C02.v *)
-Lemma request_reported powf gs p rr :
-  czero p = false -> run_request powf gs p = Some rr -> res_distributed rr == sumsp (res_dist (rr_res rr)).
-Proof.
-  intros Hz H. unfold run_request in H. destruct (distribute powf gs p) as [r|] eqn:D; [|discriminate].
-  inversion H; subst; cbn. pose proof (distribute_sum _ _ _ _ Hz D). lra.
-Qed.
-
-Lemma distribute_inverter_multi powf gs p r gr :
-  wf_groups gs -> czero p = false -> distribute powf gs p = Some r -> In gr (res_groups r) ->
-  length (pg_invs (gr_src gr)) <> 1%nat ->
-  forall a, In a (gr_sp gr) -> setpoint_ok gs a.
-Proof. intros Hwf Hz H Hg L. eapply distribute_inverter; eauto. intro. contradiction. Qed.
-
-Lemma distribute_inverter_all powf gs p r gr :
-  wf_groups gs -> czero p = false -> side_ok powf gs p -> distribute powf gs p = Some r -> In gr (res_groups r) ->
-  forall a, In a (gr_sp gr) -> setpoint_ok gs a.
-Proof. intros Hwf Hz Hs H Hg. eapply distribute_inverter; eauto. Qed.
-
-Lemma distribute_group_partial powf gs p r gr :
-  wf_groups gs -> czero p = false -> side_ok powf gs p -> distribute powf gs p = Some r -> In gr (res_groups r) ->
-  exists g, In g gs /\ gr_src gr = prepare (supply_of p) powf g /\
-            (let a := aggregate (g_bats g) in a_il a <= sumsp (gr_sp gr) <= a_iu a) /\
-            (gr_left gr == 0 -> group_full g gr).
-Proof.
-  intros Hwf Hz Hs H Hg. destruct (distribute_group _ _ _ _ _ Hwf Hz Hs H Hg) as (g & Hin & E & Hok).
-  exists g. split; auto. split; auto. split; [exact (proj1 Hok)|]. now apply group_ok_full.
 Qed.
 
 (* ------------------------------------------------------------------ nothing is lost: groups and inverters *)
@@ -371,10 +384,16 @@ Proof.
   - specialize (IH rem). destruct (split_loop rem t). cbn in *. congruence.
 Qed.
 
+Lemma split_raw_ids g : Permutation (map fst (fst (split_raw g))) (map pi_id (pg_invs (gp_src g))).
+Proof.
+  unfold split_raw. destruct (pg_invs (gp_src g)) as [|i [|j t]]; [cbn; auto|cbn; auto|].
+  rewrite split_loop_ids. apply Permutation_map. apply sort_invs_perm.
+Qed.
+
 Lemma split_group_ids g : Permutation (map fst (fst (split_group g))) (map pi_id (pg_invs (gp_src g))).
 Proof.
-  unfold split_group. destruct (pg_invs (gp_src g)) as [|i [|j t]]; [cbn; auto|cbn; auto|].
-  rewrite split_loop_ids. apply Permutation_map. apply sort_invs_perm.
+  unfold split_group. pose proof (split_raw_ids g) as R. destruct (split_raw g) as [d r]. cbn [fst] in R.
+  destruct (guard_ok (sumsp d) (gp_lower g)); cbn [fst]; auto. rewrite map_map. cbn [fst]. exact R.
 Qed.
 
 Lemma core_ids gs p r gr : core gs p = Some r -> In gr (res_groups r) ->
